@@ -653,7 +653,7 @@ def run(ctx):
             (k, v) for k, v in stats.items() if k.startswith("cc_")) or None,
         prevote_checkquorum_monitoring=dict((k, v) for k, v in stats.items() if k.startswith("pv_")) or None,
         prevote_checkquorum_note="schedules with Config.PreVote = true (pre-vote responses are often kept in flight and re-delivered late; small election timeouts in half), half of them with Config.CheckQuorum too: validated event by event against the PreVote model RaftPV.exec_pv by the extracted check_step_pv (sound w.r.t. pxstep; the safety theorems C15_pv_* cover pxreachable) and counted in evaluations.  CheckQuorum is covered ANGELICALLY: a tick may be the leader's step-down (event PvStepDown) and a delivered MsgVote/MsgPreVote may be ignored altogether (leader lease) - the model does not say when (no election clock), so CheckQuorum's liveness is not checked, its safety is (every choice is a step of pxstep).  A third of the CheckQuorum schedules also call RawNode.TransferLeader: covered angelically too (a leader may send MsgTimeoutNow at any time and may drop a proposal, any node may forward MsgTransferLeader; the receiver of MsgTimeoutNow, if a follower, campaigns for real at once without pre-vote) and validated; the safety predicates are evaluated on the observed states of all schedules (raftrun monitor)",
-        membership_change_note="schedules with ProposeConfChange (add/remove a voter, joint add+remove with automatic leave; applied when committed) are (a) validated event by event against the membership-change model RaftCC.exec_cc by the extracted check_step_cc (exact equality of term/vote/commit/role/lead/log AND of the node's configuration; sound w.r.t. RaftCC.cxstep) — these events are counted in evaluations — and (b) monitored: the safety predicates are evaluated on the observed states.  The SAFETY theorems cover such runs only inside a family of pairwise-intersecting configurations (C15_cc_*_partial); the general chain argument of joint consensus is not proved.  A quarter of the schedules also add learners (ConfChangeAddLearnerNode: fresh learners, later promoted by add-voter, and voters demoted): part of the model (tracked, replicated to, never counted in a quorum) and validated like the others",
+        membership_change_note="schedules with ProposeConfChange (add/remove a voter, joint add+remove with automatic leave; applied when committed) are (a) validated event by event against the membership-change model RaftCC.exec_cc by the extracted check_step_cc (exact equality of term/vote/commit/role/lead/log AND of the node's configuration; sound w.r.t. RaftCC.cxstep) — these events are counted in evaluations — and (b) monitored: the safety predicates are evaluated on the observed states.  The SAFETY theorems cover such runs only when the COMMITTED configurations of the run (prefixes of the logs up to the commit index) form a family with pairwise-intersecting quorums (C15_cc_*_partial; evidence key cc_schedules_inside_proved_envelope); the general chain argument of joint consensus is not proved.  A quarter of the schedules also add learners (ConfChangeAddLearnerNode: fresh learners, later promoted by add-voter, and voters demoted): part of the model (tracked, replicated to, never counted in a quorum) and validated like the others",
         correspondence="(D) quorum.{MajorityConfig,JointConfig}.{CommittedIndex,VoteResult} (built from VERIF_REPO working tree) vs extracted Gallina majority_/joint_ functions, compared on every case; (V) raft.RawNode + MemoryStorage (built from VERIF_REPO) vs extracted check_step on every event",
     ))
     lib.write_evidence(PID, ctx.tier, ctx.seed, cov,
